@@ -401,6 +401,8 @@ def subst_items(tag, sub, assign=None, top=True, nonec=None):
         elif tag[0] == 'app':
             args = tuple(subst_items(a, sub, assign, True, nonec) for a in tag[2]); f = tag[1]
             native = [is_native(a) for a in args]
+            if f == 'call' and len(args) == 2 and isinstance(args[0], tuple) and args[0][0] == 'atom' and args[0][1].startswith('<genexpr:') and (is_native(args[1]) or args[1] is None):
+                raise SkipValidation('a nested generator over a CPython object gets CPython\'s own iterator')
             if f == 'bin:%' and const_of(args[0])[0] and isinstance(const_of(args[0])[1], (str, bytes)):
                 raise SkipValidation('str % x is formatted by CPython itself (str.__mod__ is tried before the reflected operator)')
             if (f.startswith('un:') and native[0]) or (f.startswith('bin:') and all(native)) or (f in CMPSYM.values() and native[0]) \
